@@ -3,7 +3,11 @@ use crate::Ctx;
 pub mod c01;
 pub mod c02;
 pub mod c03;
+pub mod c04;
 pub mod c05;
+pub mod c06;
+pub mod c07;
+pub mod c08;
 pub mod c09;
 pub mod util;
 
@@ -12,7 +16,11 @@ pub fn run(ctx: &mut Ctx) -> Result<(), String> {
         "C01" => c01::run(ctx),
         "C02" => c02::run(ctx),
         "C03" => c03::run(ctx),
+        "C04" => c04::run(ctx),
         "C05" => c05::run(ctx),
+        "C06" => c06::run(ctx),
+        "C07" => c07::run(ctx),
+        "C08" => c08::run(ctx),
         "C09" => c09::run(ctx),
         other => return Err(format!("unknown property {other}")),
     }
@@ -26,7 +34,11 @@ pub fn rule(prop: &str) -> &'static str {
         "C01" => c01::RULE,
         "C02" => c02::RULE,
         "C03" => c03::RULE,
+        "C04" => c04::RULE,
         "C05" => c05::RULE,
+        "C06" => c06::RULE,
+        "C07" => c07::RULE,
+        "C08" => c08::RULE,
         "C09" => c09::RULE,
         _ => "",
     }
